@@ -236,13 +236,34 @@ def deriveTripCount (f : Func) (l : Loop) : Loop :=
       | none => l
       | some binOp =>
         if binOp.kind != .BinOp then l else
+        -- polarity: the comparison is a continue condition only if its TRUE successor stays in the
+        -- loop; when the true successor is the exit the comparison is negated; otherwise unknown
+        let succs := f.succs exitBlock
+        let effOp? : Option String :=
+          match succs with
+          | [sT, sF] =>
+            let trueStays := l.contains sT
+            let falseStays := l.contains sF
+            if trueStays && !falseStays then some binOp.op
+            else if !trueStays && falseStays then
+              (if binOp.op == "<" then some ">="
+               else if binOp.op == "<=" then some ">"
+               else if binOp.op == ">" then some "<="
+               else if binOp.op == ">=" then some "<"
+               else if binOp.op == "==" then some "!="
+               else none)
+            else none
+          | _ => none
+        match effOp? with
+        | none => { l with tripCount := some (.unknown none false) }
+        | some op =>
         -- (isUpCounting, isInclusive, isNEQ); ivOnLeft is computed by Go but never read
         let flags? : Option (Bool × Bool × Bool) :=
-          if binOp.op == "<" then some (true, false, false)
-          else if binOp.op == "<=" then some (true, true, false)
-          else if binOp.op == ">" then some (false, false, false)
-          else if binOp.op == ">=" then some (false, true, false)
-          else if binOp.op == "!=" then some (false, false, true)
+          if op == "<" then some (true, false, false)
+          else if op == "<=" then some (true, true, false)
+          else if op == ">" then some (false, false, false)
+          else if op == ">=" then some (false, true, false)
+          else if op == "!=" then some (false, false, true)
           else none
         match flags? with
         | none => { l with tripCount := some (.unknown none false) }
